@@ -47,6 +47,18 @@ struct Arrays {
   BABYLON_SERIALIZABLE((ia, 1)(fa, 2)(da, 3)(sa, 4)(na, 5))
 };
 
+struct Containers {
+  ::std::list<int32_t> l;
+  ::std::unordered_set<int32_t> s;
+  ::std::vector<::std::string> vs;
+  ::std::vector<bool> vb;
+  ::std::vector<float> vf;
+  ::std::unique_ptr<int32_t> pi;
+  ::std::shared_ptr<int32_t> si;
+  ::std::unordered_map<int32_t, ::std::string> m;
+  BABYLON_SERIALIZABLE((l, 1)(s, 2)(vs, 3)(vb, 4)(vf, 5)(pi, 6)(si, 7)(m, 8))
+};
+
 // BABYLON_COMPATIBLE: fields numbered automatically
 struct Compatible {
   int32_t x {0};
@@ -94,6 +106,7 @@ void instantiate() {
   round_trip_default<::std::list<::std::string>>();
   round_trip_default<Arrays>();
   round_trip_default<Compatible>();
+  round_trip_default<Containers>();
   round_trip_default<::std::unordered_set<int32_t>>();
   round_trip_default<::std::unordered_set<::std::string>>();
   round_trip_default<::std::unordered_map<int32_t, ::std::string>>();
